@@ -108,6 +108,10 @@ func Parse(block []rune, pos int) (pt ParsedTokens, syntaxHighlighted string) {
 
 	var i int
 
+	// index of the last rune that was taken literally because a backslash
+	// preceded it (an escaped `-` or `=` cannot start a `->` / `=>` pipe)
+	lastEscaped := -1
+
 	expectParam := func() {
 		pt.ExpectParam = false
 		pt.Parameters = append(pt.Parameters, "")
@@ -116,6 +120,7 @@ func Parse(block []rune, pos int) (pt ParsedTokens, syntaxHighlighted string) {
 
 	escaped := func() {
 		pt.Escaped = false
+		lastEscaped = i
 		*pt.pop += string(block[i])
 		ansiReset(block[i])
 	}
@@ -352,7 +357,7 @@ func Parse(block []rune, pos int) (pt ParsedTokens, syntaxHighlighted string) {
 			case pt.QuoteSingle, pt.QuoteDouble, pt.QuoteBrace > 0:
 				*pt.pop += ` `
 				syntaxHighlighted += string(block[i])
-			case i > 0 && (block[i-1] == '-' || block[i-1] == '='):
+			case i > 0 && (block[i-1] == '-' || block[i-1] == '=') && lastEscaped != i-1:
 				if pos != 0 && pt.Loc >= pos {
 					return
 				}
@@ -712,6 +717,7 @@ func Parse(block []rune, pos int) (pt ParsedTokens, syntaxHighlighted string) {
 			switch {
 			case pt.Escaped:
 				pt.Escaped = false
+				lastEscaped = i
 				ansiReset(block[i])
 				switch block[i] {
 				case 'r':
